@@ -11,6 +11,10 @@ private def binsOfFlat : List Float → List (Bin Float)
   | a :: b :: c :: rest => ⟨a, b, c⟩ :: binsOfFlat rest
   | _ => []
 
+private def cellsOfFlat : List Float → List (Cell Float)
+  | a :: b :: c :: d :: e :: rest => ⟨a, b, c, d, e⟩ :: cellsOfFlat rest
+  | _ => []
+
 private def showBins (l : List (Bin Float)) : String :=
   joinFloats (l.flatMap fun b => [b.l, b.r, b.v])
 
@@ -30,6 +34,8 @@ private def showBins (l : List (Bin Float)) : String :=
 * `rebin nb b… (l r v)…`              → contents after `rebin_histogram(src, from_breaks(b))`
 * `rebinn n (l r v)…`                 → `breaks;contents` of `rebin_histogram(src, n)`
 * `rebin2 nb b… nc c… (l r v)…`       → contents after re-binning to `b` and then to `c`
+* `rebin2d n1 n2 t1 nb1 b… t2 nb2 b… (xl xr yl yr v)…` → row-major contents of a two-level histogram (level names
+  `n1 n2`) re-binned to a MultiIndex target whose levels `t1`, `t2` (any order) carry the breaks
 * `combine k len₁ … len_k (l r v)…`   → combined `(l r v)…`
 -/
 def handleCollective : List String → Option String
@@ -118,6 +124,20 @@ def handleCollective : List String → Option String
       let v ← parseFloats rest2.tail
       let src := binsOfFlat (v.drop nc)
       some (joinFloats (rebin (rebinBins src b) (v.take nc)))
+    | "rebin2d" => do
+      -- rebin2d n1 n2 t1 nb1 b… t2 nb2 b… (xl xr yl yr v)…
+      match rest with
+      | n1 :: n2 :: t1 :: nb1 :: rest1 =>
+        let nb1 ← nb1.toNat?
+        let b1 ← parseFloats (rest1.take nb1)
+        match rest1.drop nb1 with
+        | t2 :: nb2 :: rest2 =>
+          let nb2 ← nb2.toNat?
+          let b2 ← parseFloats (rest2.take nb2)
+          let cells := cellsOfFlat (← parseFloats (rest2.drop nb2))
+          some (joinFloats (rebin2Named (n1, n2) [(t1, b1), (t2, b2)] cells).flatten)
+        | _ => none
+      | _ => none
     | "combine" => do
       let k ← (← rest.head?).toNat?
       let lens ← parseNats ((rest.drop 1).take k)
